@@ -59,12 +59,13 @@ Fixpoint cat_opts (l : list (option bytes)) : option bytes :=
   | None :: _ => None
   end.
 
-(* RouterSolicitation.marshal: 4 reserved bytes + options, NO ICMPv6 type/code/checksum header *)
+(* RouterSolicitation.marshal: ICMPv6 header (type 133, code 0, checksum 0) + 4 reserved bytes + options
+   (header since fix 6efe826) *)
 Definition rs_marshal (mac : bytes) : option bytes :=
-  match lla_option 1 mac with Some o => Some ([0;0;0;0] ++ o) | None => None end.
+  match lla_option 1 mac with Some o => Some ([133;0;0;0] ++ [0;0;0;0] ++ o) | None => None end.
 
 Definition ip6_all_routers_addr : addr :=
-  ([51;51;0;0;0;2], [255;2;0;0;0;0;0;0;0;0;0;0;0;0;0;1]).     (* session.go:43-45, sic: ff02::1 *)
+  ([51;51;0;0;0;2], [255;2;0;0;0;0;0;0;0;0;0;0;0;0;0;2]).     (* session.go:43-45 (ff02::2 since fix 5d47cb2) *)
 Definition ip6_all_nodes_addr : addr :=
   ([51;51;0;0;0;1], [255;2;0;0;0;0;0;0;0;0;0;0;0;0;0;1]).
 
@@ -76,8 +77,9 @@ Definition send_rs (c : cfg) (junk : bytes) : res (list bytes) :=
   end.
 
 (* RouterAdvertisement.marshal with CurrentHopLimit 64, lifetime 1800 s, no flags:
-   12-byte body (cur hop limit, flags, lifetime, reachable, retrans) + options, NO ICMPv6 header *)
-Definition ra_body (opts : bytes) : bytes := [64; 0] ++ [hi8 1800; lo8 1800] ++ b32 0 ++ b32 0 ++ opts.
+   ICMPv6 header (type 134; since fix 6efe826) + 12-byte body (cur hop limit, flags, lifetime, reachable,
+   retrans) + options *)
+Definition ra_body (opts : bytes) : bytes := [134; 0; 0; 0] ++ [64; 0] ++ [hi8 1800; lo8 1800] ++ b32 0 ++ b32 0 ++ opts.
 
 (* layer_icmp6_ndp.go:221 ICMP6SendRouterAdvertisement(prefixes, rdnss, dstAddr)
    prefixes : list (prefix length, prefix); rdnss : option (lifetime seconds, servers) *)
